@@ -3,7 +3,7 @@ import json
 d = json.load(open("/verif/known_findings.json"))
 rows = {}
 for e in d["findings"]:
-    key = (e.get("commit", "-"), e["status"])
+    key = (e.get("commit") or "-" + e["property"], e["status"])
     rows.setdefault(key, []).append(e)
 out = ["# Genuine LUNA defects found by the checks\n",
        "Generated from known_findings.json by tools_findings_md.py. `fixed` = repaired in /repo by the named `fix:` commit "
@@ -18,6 +18,6 @@ def k(item):
 for (commit, status), es in sorted(rows.items(), key=k):
     props = sorted({e["property"] for e in es})
     sigs = ", ".join(sorted({e["signature"] for e in es}))
-    out.append(f"| {' '.join(props)} | {status} | {commit} | {sigs} | {es[0]['description']} |")
+    out.append(f"| {' '.join(props)} | {status} | {commit if status == 'fixed' else '-'} | {sigs} | {es[0]['description']} |")
 open("/verif/FINDINGS.md", "w").write("\n".join(out) + "\n")
 print(len(rows), "root causes")
